@@ -529,7 +529,10 @@ class CatalogWriter(AbstractContextManager, HandlesDataChunk):
             raise ValueError(f"patch with ID {patch_id} contains no data")
 
         patch_ids = np.fromiter(self.writers.keys(), dtype=np.int16)
-        np.sort(patch_ids).tofile(self.cache_directory / PATCH_INFO_FILE)
+        # an incomplete (empty) ID list would be read as an empty catalog
+        tmp_file = self.cache_directory / (PATCH_INFO_FILE + ".tmp")
+        np.sort(patch_ids).tofile(tmp_file)
+        tmp_file.replace(self.cache_directory / PATCH_INFO_FILE)
 
 
 def write_patches_unthreaded(
